@@ -49,6 +49,10 @@ ISAS = [
     ("wasm", "amoco.arch.wasm.cpu", None, {}, [("le", {}, 1)]),
 ]
 FIRST = ("x64", "x86", "rv32i", "rv64i", "armv7", "thumb", "armv8", "sparc", "mips", "mipsLE")
+# the ISA modules of the quick tier: the ones whose ISA-specific findings are enumerated per mnemonic and stable
+# across seeds (the ARM family and SPARC have a long tail of python-level branching on concreteness - save/restore,
+# exclusive stores, SMLAxy, shifts by register, interworking branches - that only the thorough tier samples)
+QUICK = ("x64", "x86", "rv32i", "rv64i", "mips", "mipsLE")
 
 # registers that the architecture hard-wires to zero but amoco models as ordinary symbols: a realistic
 # concrete state binds them to 0
